@@ -2,7 +2,12 @@
 
 package req
 
-import "net"
+import (
+	"net"
+
+	h2internal "github.com/imroc/req/v3/internal/http2"
+	"github.com/imroc/req/v3/internal/http3"
+)
 
 // VerifPoolSnap is a lock-consistent copy of the HTTP/1.1 pool bookkeeping of a Transport
 // (verification hook for property C09; compiled only with -tags verif).
@@ -70,4 +75,20 @@ func VerifPoolSnapshot(t *Transport) VerifPoolSnap {
 	}
 	s.DialsInProgress = t.dialsInProgress.len()
 	return s
+}
+
+// VerifH2Snapshot / VerifH3Snapshot expose the HTTP/2 and HTTP/3 connection caches of t
+// (property C09).
+func VerifH2Snapshot(t *Transport) h2internal.VerifH2Pool {
+	if t.t2 == nil {
+		return h2internal.VerifH2Pool{}
+	}
+	return h2internal.VerifH2PoolSnapshot(t.t2)
+}
+
+func VerifH3Snapshot(t *Transport) []http3.VerifH3Client {
+	if t.t3 == nil {
+		return nil
+	}
+	return http3.VerifH3Clients(t.t3)
 }
